@@ -1,6 +1,7 @@
 """Nada Collection type definitions."""
 
 import copy
+import operator
 from dataclasses import dataclass
 import inspect
 from typing import Any, Dict, Generic, List
@@ -281,6 +282,9 @@ class NTuple(Collection):
         )
 
     def __getitem__(self, index: int) -> NadaType:
+        # The position is recorded as an integer (`t[True]` is `t[1]`); anything that is not an
+        # index (a float, a string, a Nada value) raises TypeError, as for a Python tuple.
+        index = operator.index(index)
         if not -len(self.values) <= index < len(self.values):
             raise IndexError(f"Invalid index {index} for NTuple.")
         if index < 0:
